@@ -144,7 +144,10 @@ func main() {
 	})
 	c.Finish(vlib.FinishOpts{
 		Rule: "PMC scenario = (2-4 real controllers, memory kind/latency/jitter/buffers/stalls per controller, control-peer back-pressure, " +
-			"sequence of migrations with page sizes 64*k up to 64 KiB issued back-to-back or after completion, disjoint pairs concurrently); " +
+			"sequence of migrations with page sizes 64*k up to 64 KiB issued back-to-back or after completion, disjoint pairs concurrently; " +
+			"every third scenario crosses the roles: requests of different controllers overlap in time (start delays 0-200 cycles, 64 B - 16 KiB mixed) in opposite directions, rings and chains, " +
+			"so that a controller is the destination of its own request while it serves another controller's pulls - admitted because each controller accepts one request at a time through its own gate " +
+			"and serves pulls independently of it; per phase no source is pulled by two controllers); " +
 			"driver scenario = (2-4 GPUs, page size, 1-2 processes, sequence of PageMigrationReqToDriver, queued or after the reply, random CP answer delays); " +
 			"driver memory scenario = (2-4 GPUs of 3-16 pages that are full or nearly full, default or buddy allocator, 1-2 processes, 1-4 requests of 1-3 pages, " +
 			"application calls AllocateMemory / FreeMemory / Remap / write before, inside (before re-homing, while each copy is outstanding) and after every migration window, " +
@@ -158,7 +161,9 @@ func main() {
 			"or one driver memory scenario in which every request was answered, an allocation on the source GPU inside a window went past the frames that were free " +
 			"when the page was re-homed (= would receive a prematurely released source frame) and all contents were compared",
 		Assumptions: []string{
-			"environment follows the driver's protocol: a controller pulls from one source at a time and is never source and destination at once; concurrent migrations only between disjoint pairs",
+			"controller part: a controller is sent one request at a time or several queued ones (served one by one); requests of different controllers may overlap with the roles crossed, " +
+				"but a source is never pulled by two controllers at once (the controller keeps a single requester port for all pulls it serves: two pullers of one source crash the unchanged tree, " +
+				"key C19|pmc|crash|one-source-serving-two-pullers, repaired in /repo; the canonical case canon-one-source-two-pullers is part of the battery); concurrently active requests never read what another one writes",
 			"page sizes are multiples of the 64-byte transfer unit, > 0",
 			"memories answer every request exactly once (akita ideal memory controller, or the harness' fake memory with random latency/reordering/stalls); a write takes effect when it is acknowledged",
 			"fake command processors answer every handshake command exactly once after a random delay; CurrAccessingGPUs is non-empty and duplicate-free and contains the host GPU, as akita's MMU builds it",
@@ -184,6 +189,9 @@ func main() {
 			"pmc_64k_pages":                                             3,
 			"pmc_requests_arrived_during_migration":                     40,
 			"pmc_concurrent_disjoint_migrations":                        5,
+			"pmc_concurrent_migrations_roles_crossed":                   300,
+			"pmc_completions_sent_while_serving_a_pull":                 100,
+			"pmc_scenarios_completion_sent_while_serving_a_pull":        50,
 			"pmc_mem_stalls":                                            100,
 			"pmc_ctrl_stalls":                                           20,
 			"drv_handshakes_checked":                                    200,
